@@ -33,6 +33,13 @@ PosMenu(n) ==
   \cup {IxLi(<<>>), IxLi(<<n - 1>>), IxLi([i \in 1..n |-> n - i]), IxLi(<<0, 0>>), IxLi(<<-1>>)}
   \cup {IxMk(m) : m \in Masks(n)}
   \cup {IxSl(<<1>>, <<>>, <<>>), IxSl(<<>>, <<-1>>, <<>>), IxSl(<<>>, <<>>, <<-1>>)}
+LabelMenuR(L) == {IxAll, IxSc(L[Len(L)]), IxLi(Rev(L)), IxMk([i \in 1..Len(L) |-> i # 1]), IxSl(<<L[1]>>, <<L[Len(L)]>>, <<>>)}
+PosMenuR(n) == {IxAll, IxSc(-1), IxLi([i \in 1..n |-> n - i]), IxMk([i \in 1..n |-> i # 1]), IxSl(<<>>, <<>>, <<-1>>)}
+RECURSIVE IdxTuplesR(_, _)
+IdxTuplesR(labs, mode) ==
+  IF labs = <<>> THEN {<<>>}
+  ELSE {<<ix>> \o t : ix \in (IF mode = "label" THEN LabelMenuR(Head(labs)) ELSE PosMenuR(Len(Head(labs)))),
+                      t \in IdxTuplesR(Tail(labs), mode)}
 RECURSIVE IdxTuples(_, _)
 IdxTuples(labs, mode) ==
   IF labs = <<>> THEN {<<>>}
@@ -52,6 +59,8 @@ ChooseArray ==
   /\ ph = 0 /\ ph' = 1 /\ out' = out
   /\ \/ \E labs \in FormArrays : \E mode \in {"label", "position"} :
           in' = [NoIn EXCEPT !.fam = "forms", !.a = MkArr(labs, "f"), !.mode = mode]
+     \/ \E mode \in {"label", "position"} :
+          in' = [NoIn EXCEPT !.fam = "forms3", !.a = MkArr(<< <<4, 2>>, <<2, 6, 4>>, <<6, 2>> >>, "f"), !.mode = mode]
      \/ \E labs \in {<<<<4, 2, 6>>>>, <<<<2, 4>>, <<6, 2, 4>>>>} : \E dt \in Kinds :
           in' = [NoIn EXCEPT !.fam = "dtypes", !.a = MkArr(labs, dt), !.mode = "label"]
      \/ \E labs \in {<<<<4, 2>>, <<2, 6>>>>, <<<<2, 4>>, <<6, 2, 4>>>>, <<<<2>>, <<4, 2>>, <<2, 6>>>>} : \E dt \in {"f", "i"} :
@@ -62,6 +71,7 @@ ChooseArray ==
 ChooseIndex ==
   /\ ph = 1 /\ ph' = 2 /\ out' = out
   /\ CASE in.fam = "forms"  -> \E idxs \in IdxTuples(in.a.labs, in.mode) : in' = [in EXCEPT !.idxs = idxs]
+       [] in.fam = "forms3" -> \E idxs \in IdxTuplesR(in.a.labs, in.mode) : in' = [in EXCEPT !.idxs = idxs, !.fam = "forms"]
        [] in.fam = "dtypes" -> LET L == in.a.labs[1] IN
                                \E ix \in {IxSc(L[1]), IxLi(<<L[Len(L)], L[1]>>), IxSl(<<>>, <<>>, <<>>), IxMk([i \in 1..Len(L) |-> i = 1]), IxLi(<<>>)} :
                                   in' = [in EXCEPT !.idxs = <<ix>> \o [i \in 1..(NDim(in.a) - 1) |-> IxAll]]
